@@ -142,6 +142,28 @@ func parseMsg(tok string) klevdb.Message {
 	}
 }
 
+var pubKeyBufs, pubValBufs [][]byte
+
+// temporary files planted by "rmindex ... stale": left out of the directory listings (the model has no temporary files)
+var plantedTmp = map[string]bool{}
+
+// reuseBuf copies b into the i-th buffer of the pool (grown on demand, never reallocated while large enough) and
+// returns the slice of that buffer; nil stays nil
+func reuseBuf(pool *[][]byte, i int, b []byte) []byte {
+	if b == nil {
+		return nil
+	}
+	for len(*pool) <= i {
+		*pool = append(*pool, make([]byte, 0, 256))
+	}
+	if cap((*pool)[i]) < len(b) {
+		(*pool)[i] = make([]byte, 0, 2*len(b))
+	}
+	buf := (*pool)[i][:len(b)]
+	copy(buf, b)
+	return buf
+}
+
 func parseOffsets(tok string) map[int64]struct{} {
 	res := map[int64]struct{}{}
 	if tok == "-" || tok == "" {
@@ -195,6 +217,7 @@ type hstate struct {
 	keys  bool
 	times bool
 	dead  bool
+	roSum string // checksum of the *.log files taken before a read-only Open
 }
 
 func workRoot() string {
@@ -420,6 +443,10 @@ func step(st *hstate, f []string) []string {
 		}
 		o := parseOpen(f)
 		st.keys, st.times = o.KeyIndex, o.TimeIndex
+		st.roSum = ""
+		if o.Readonly {
+			st.roSum = logSum(st.dir)
+		}
 		lg, err := klevdb.Open(st.dir, o)
 		if err != nil {
 			return e(err)
@@ -432,20 +459,37 @@ func step(st *hstate, f []string) []string {
 		if err != nil {
 			return e(err)
 		}
+		// C19: a read-only handle never changes any log file, whatever its options and whatever was asked of it
+		if st.opts.Readonly && st.roSum != "" && logSum(st.dir) != st.roSum {
+			return []string{"err ReadonlyHandleChangedLogFiles"}
+		}
 		return []string{"ok"}
 	case "pub":
+		// the producer reuses its buffers: the i-th message of every batch has its key and value in the same
+		// memory as the i-th message of the batch before, and the buffers are scribbled over once Publish returned
 		msgs := make([]klevdb.Message, 0, len(f)-1)
-		for _, t := range f[1:] {
-			msgs = append(msgs, parseMsg(t))
+		for i, t := range f[1:] {
+			m := parseMsg(t)
+			m.Key = reuseBuf(&pubKeyBufs, i, m.Key)
+			m.Value = reuseBuf(&pubValBufs, i, m.Value)
+			msgs = append(msgs, m)
 		}
 		n, err := l.Publish(msgs)
+		offs := make([]int64, len(msgs))
+		for i := range msgs {
+			offs[i] = msgs[i].Offset
+			// scribble only the value: the key buffer keeps its content until the next batch overwrites it in place
+			for j := range msgs[i].Value {
+				msgs[i].Value[j] = 0xEE
+			}
+		}
 		if err != nil {
 			return e(err)
 		}
 		var sb strings.Builder
 		fmt.Fprintf(&sb, "ok %d", n)
-		for _, m := range msgs {
-			fmt.Fprintf(&sb, " %d", m.Offset)
+		for _, o := range offs {
+			fmt.Fprintf(&sb, " %d", o)
 		}
 		return []string{sb.String()}
 	case "pubbig":
@@ -645,15 +689,39 @@ func step(st *hstate, f []string) []string {
 		}
 		return []string{fmt.Sprintf("ok %d %s%s", sz, versOf(sv, ms), fmtMsgs(ms))}
 	case "rmindex":
+		// with a third field "stale": what a process that died inside index.Write left behind is there too - a
+		// temporary file <index>.tmp holding the first half of the removed index (temporary files are not part of the log)
+		stale := len(f) > 2 && f[2] == "stale"
+		rm := func(ix string) {
+			if stale {
+				if b, err := os.ReadFile(ix); err == nil {
+					hdr, isz := 0, 16
+					if len(b) >= 6 && string(b[:6]) == "\xffklevi" {
+						hdr = 8
+					}
+					if st.times {
+						isz += 8
+					}
+					if st.keys {
+						isz += 8
+					}
+					if n := (len(b) - hdr) / isz; n >= 1 {
+						_ = os.WriteFile(ix+".tmp", b[:hdr+((n+1)/2)*isz], 0o600)
+						plantedTmp[ix+".tmp"] = true
+					}
+				}
+			}
+			_ = os.Remove(ix)
+		}
 		segs := listSegs(st.dir)
 		if f[1] == "all" {
 			for _, s := range segs {
-				_ = os.Remove(s.Index)
+				rm(s.Index)
 			}
 		} else {
 			for k := range parseOffsets(f[1]) {
 				if int(k) < len(segs) {
-					_ = os.Remove(segs[k].Index)
+					rm(segs[k].Index)
 				}
 			}
 		}
@@ -1057,7 +1125,7 @@ func listFiles(dir string, opts []string) string {
 	var sb strings.Builder
 	for _, en := range ents {
 		name := en.Name()
-		if name == ".lock" {
+		if name == ".lock" || plantedTmp[filepath.Join(dir, name)] {
 			continue
 		}
 		fi, err := en.Info()
